@@ -45,7 +45,7 @@ static std::vector<CheckDef> g_checks = {
           "distinct_nontrivial: distinct manager states reached, state = hash(algorithm, family, |in flight|, sorted remaining-block buckets "
           "of in-flight jobs, #idle, #complete clients, last op kind) at which at least one job was in flight",
           { "reference hashes trusted after start-up vector self-check", "sampling, not proof" } },
-        { "C06", "exploration", { { "hashmgr", 5 }, { "l2mgr", 1 } }, 30000, 3000000, 50, 900, false, false,
+        { "C06", "exploration", { { "hashmgr", 5 }, { "l2mgr", 1 }, { "hashgiant", -28 } }, 30000, 3000000, 50, 900, false, false,
           "cases: seeded plans over submit/flush/drain/restart/zero-length-LAST histories on every (algorithm, family); "
           "distinct_nontrivial: distinct manager states (as C01) reached with a conservation invariant evaluated",
           { "lane capacity per family read from the family's manager-init code", "sampling, not proof" } },
@@ -148,6 +148,36 @@ static std::vector<CheckDef> g_checks = {
             "liveness is bounded in scheduling steps under a fair fallback scheduler" } },
 };
 
+// Which simulation run index i of a check belongs to. The first 8 indices belong to the check's primary simulation (its rare huge
+// cases live there); a simulation listed with a negative weight -q owns the next q indices (4q in the thorough tier) - a fixed quota
+// for expensive workloads that visit their cases round-robin by run index; all other indices are drawn by weight from seed_i.
+static const char *pick_sim(const CheckDef &cd, uint64_t seed_i, uint64_t i, bool thorough)
+{
+        if (i < 8)
+                return cd.sims[0].sim;
+        uint64_t base = 8;
+        int totw = 0;
+        for (auto &sw : cd.sims) {
+                if (sw.weight < 0) {
+                        uint64_t q = (uint64_t) (-sw.weight) * (thorough ? 4 : 1);
+                        if (i < base + q)
+                                return sw.sim;
+                        base += q;
+                } else
+                        totw += sw.weight;
+        }
+        Rng pick(seed_i, "simpick");
+        int x = (int) pick.below(totw);
+        for (auto &sw : cd.sims) {
+                if (sw.weight < 0)
+                        continue;
+                if (x < sw.weight)
+                        return sw.sim;
+                x -= sw.weight;
+        }
+        return cd.sims[0].sim;
+}
+
 static const CheckDef *find_check(const std::string &p)
 {
         for (auto &c : g_checks)
@@ -169,6 +199,8 @@ static Sim *get_sim(const std::string &n)
                 s = make_hashmgr_sim();
         else if (n == "hashlong")
                 s = make_hashlong_sim();
+        else if (n == "hashgiant")
+                s = make_hashgiant_sim();
         else if (n == "l2mgr")
                 s = make_l2mgr_sim();
         else if (n == "stream")
@@ -212,10 +244,13 @@ static void exec_plan(Sim *sim, const Plan &p, uint64_t hidden_seed, RunResult &
 {
         Env &e = env();
         e.begin_run(hidden_seed, &r);
+        e.mem.set_addr_policy(mix64(p.seed, hash_str("addr-policy")));
         try {
                 sim->execute(p, e, r);
         } catch (RunAbort &) {
         }
+        if (e.mem.straddled())
+                r.cov.hit("buffers_placed_across_a_4GiB_line", e.mem.straddled());
         e.end_run();
 }
 
@@ -601,9 +636,6 @@ static void worker_main(int wid, int W, const CheckDef &cd, const std::string &t
         WorkerOut out;
         double t0 = now_s();
         bool thorough = tier == "thorough";
-        int totw = 0;
-        for (auto &sw : cd.sims)
-                totw += sw.weight;
         const std::string focus = cd.prop;
         g_focus = focus;
         for (uint64_t i = start_from; i < nruns; i++) {
@@ -614,16 +646,7 @@ static void worker_main(int wid, int W, const CheckDef &cd, const std::string &t
                 sp->current[wid] = i;
                 uint64_t seed_i = mix64(verif_seed, i);
                 // pick the sim
-                Rng pick(seed_i, "simpick");
-                int x = i < 8 ? 0 : (int) pick.below(totw); // the first runs belong to the check's primary simulation (rare huge cases live there)
-                const char *sname = cd.sims[0].sim;
-                for (auto &sw : cd.sims) {
-                        if (x < sw.weight) {
-                                sname = sw.sim;
-                                break;
-                        }
-                        x -= sw.weight;
-                }
+                const char *sname = pick_sim(cd, seed_i, i, thorough);
                 Sim *sim = get_sim(sname);
                 Plan p = sim->generate(seed_i, focus, thorough, i);
                 p.sim = sname;
@@ -1042,23 +1065,11 @@ static int selftest_determinism(const std::string &prop, uint64_t n)
                 wid = atoi(s);
         if (const char *s = getenv("VERIF_WORKERS"))
                 W = atoi(s);
-        int totw = 0;
-        for (auto &sw : cdp->sims)
-                totw += sw.weight;
         for (uint64_t i = 0; i < n; i++) {
                 if ((int) (i % W) != wid)
                         continue;
                 uint64_t seed_i = mix64(verif_seed, i);
-                Rng pick(seed_i, "simpick");
-                int x = i < 8 ? 0 : (int) pick.below(totw); // the first runs belong to the check's primary simulation (rare huge cases live there)
-                const char *sname = cdp->sims[0].sim;
-                for (auto &sw : cdp->sims) {
-                        if (x < sw.weight) {
-                                sname = sw.sim;
-                                break;
-                        }
-                        x -= sw.weight;
-                }
+                const char *sname = pick_sim(*cdp, seed_i, i, false);
                 Sim *sim = get_sim(sname);
                 Plan p = sim->generate(seed_i, prop, false, i);
                 p.sim = sname;
